@@ -174,6 +174,21 @@ func Fail(format string, a ...interface{}) {
 	s.Failures = append(s.Failures, fmt.Sprintf(format, a...))
 }
 
+// ExitProcess ends the execution the way a process exit does: the calling thread (the program's main
+// goroutine) is done, every other thread is abandoned wherever it is, the outcome is Completed.
+// Threads that were still alive are listed in Blocked for the record.
+func ExitProcess() {
+	s := S
+	if s == nil {
+		return
+	}
+	if s.aborting {
+		panic(kill)
+	}
+	s.end(Completed, "")
+	panic(kill)
+}
+
 // Choose is an environment (data) choice among n alternatives; all are free.
 func Choose(n int) int {
 	s := S
